@@ -25,6 +25,85 @@ pub struct Scn {
     /// which rewrite of the signature database every analyzer of the run is given (0 = the bundled one)
     #[serde(default)]
     pub db_variant: u32,
+    /// scale scenario (the trace is empty then): see `Flood`
+    #[serde(default)]
+    pub flood: Option<Flood>,
+}
+
+/// One connection opens, then `n` other clients open theirs (all within the configured capacity `cap`, all alive
+/// at once), then the first connection carries its request, its response and later timestamps. What the unified
+/// analyzer keeps per connection must still be there exactly when the protocol analyzers' is.
+#[derive(Clone, Debug, Serialize, Deserialize)]
+pub struct Flood {
+    pub n: usize,
+    pub cap: usize,
+    pub seed: u64,
+}
+
+fn run_flood(fl: &Flood, st: &mut RunStats) -> Result<(), Violation> {
+    use crate::gen::tcp;
+    use crate::pkt::{self, Endpoint};
+    clock::arm(1_700_000_000_000);
+    let mut ucfg = SutCfg::new(Kind::Unified, fl.cap);
+    ucfg.uni = Some((true, true, false, false));
+    // matching is off in the unified analyzer of this scenario, so the protocol analyzers run without a database
+    ucfg.with_db = false;
+    let mut tcfg = SutCfg::new(Kind::Tcp, fl.cap);
+    tcfg.with_db = false;
+    let mut hcfg = SutCfg::new(Kind::Http, fl.cap);
+    hcfg.with_db = false;
+    let mut uni = Sut::new(&ucfg).map_err(|e| Violation::new("harness-error", "", e))?;
+    let mut tcpa = Sut::new(&tcfg).map_err(|e| Violation::new("harness-error", "", e))?;
+    let mut httpa = Sut::new(&hcfg).map_err(|e| Violation::new("harness-error", "", e))?;
+    let mut r = Rng::new(fl.seed);
+    let hc = tcp::Host { profile: 0, ts_hz: 1000, ts_base: r.u32() >> 2, ttl: 64 };
+    let hs = tcp::Host { profile: 1, ts_hz: 250, ts_base: r.u32() >> 2, ttl: 64 };
+    let (vc, vs) = (Endpoint::v4(10, 200, 0, 1, 40000), Endpoint::v4(10, 201, 0, 1, 80));
+    let req = b"GET /flood HTTP/1.1\r\nHost: flood.example.test\r\nUser-Agent: curl/8.1.2\r\nAccept: */*\r\n\r\n".to_vec();
+    let resp = b"HTTP/1.1 200 OK\r\nServer: nginx/1.24.0\r\nContent-Length: 0\r\n\r\n".to_vec();
+    let mut step = |seg: &pkt::Seg, compare: bool, what: &str, st: &mut RunStats| -> Result<usize, Violation> {
+        let frame = pkt::frame(seg, Framing::Ethernet);
+        let u = uni.deliver(&frame);
+        let t = tcpa.deliver(&frame);
+        let h = httpa.deliver(&frame);
+        st.packets += 1;
+        if !compare {
+            return Ok(0);
+        }
+        st.evals += 1;
+        let mut expect: Vec<Obs> = t.obs.clone();
+        expect.extend(h.obs.iter().cloned());
+        for o in &expect {
+            st.ev(&o.kind);
+        }
+        if u.obs != expect {
+            let missing: Vec<&str> = expect.iter().filter(|e| !u.obs.contains(e)).map(|e| e.kind.as_str()).collect();
+            let extra: Vec<&str> = u.obs.iter().filter(|e| !expect.contains(e)).map(|e| e.kind.as_str()).collect();
+            let which = missing.first().or(extra.first()).cloned().unwrap_or("?").to_string();
+            return Err(Violation::new("field-mismatch", format!("{}:scale", which), format!("{} with {} other connections open (capacity {}): field {} differs\n  protocol analyzers: [{}]\n  unified analyzer:   [{}]", what, fl.n, fl.cap, which, expect.iter().map(|o| o.short()).collect::<Vec<_>>().join(" | "), u.obs.iter().map(|o| o.short()).collect::<Vec<_>>().join(" | "))));
+        }
+        Ok(expect.len())
+    };
+    let mut seen = 0usize;
+    seen += step(&tcp::syn(&hc, vc, vs, 1000, clock::mono_ns()), true, "the first connection's SYN", st)?;
+    clock::advance_ns(1_000_000);
+    seen += step(&tcp::syn_ack(&hs, vc, vs, 5000, 1000, clock::mono_ns(), 1), true, "the first connection's SYN+ACK", st)?;
+    let hf = tcp::Host { profile: 3, ts_hz: 1000, ts_base: 12345, ttl: 64 };
+    for i in 0..fl.n {
+        clock::advance_ns(1_000);
+        let c = Endpoint::v4(11 + (i >> 24) as u8, (i >> 16) as u8, (i >> 8) as u8, i as u8, 1024 + (i % 60000) as u16);
+        let sv = Endpoint::v4(10, 201, 0, 2 + (i % 7) as u8, 80);
+        step(&tcp::syn(&hf, c, sv, 7000 + i as u32, clock::mono_ns()), i % 8192 == 0, "another client's SYN", st)?;
+    }
+    clock::advance_ns(1_500_000_000);
+    seen += step(&tcp::data(&hc, vc, vs, 1001, 5001, req.clone(), clock::mono_ns(), 1, pkt::ACK | pkt::PSH), true, "the first connection's request", st)?;
+    clock::advance_ns(2_000_000);
+    seen += step(&tcp::data(&hs, vs, vc, 5001, 1001 + req.len() as u32, resp, clock::mono_ns(), 1, pkt::ACK | pkt::PSH), true, "the first connection's response", st)?;
+    st.fault_n("population_of_simultaneously_open_connections", fl.n as u64);
+    st.probe_n("results_compared_on_the_first_connection", seen as u64);
+    st.sim_ns = clock::mono_ns();
+    st.nontrivial = seen >= 3;
+    Ok(())
 }
 
 pub struct C20;
@@ -94,6 +173,11 @@ impl Prop for C20 {
     }
 
     fn generate(r: &mut Rng, tier: Tier, _idx: u64) -> Scn {
+        // scale scenario, one run in 1500: a little more than 2^16 / 2^17 / 2^18 connections open at once
+        if r.chance(1, 1500) {
+            let n = (1usize << *r.pick(&[16u32, 16, 17, 18])) + r.urange(50, 500);
+            return Scn { cap: 0, trace: vec![], configs: vec![], boundaries: vec![], db_variant: 0, flood: Some(Flood { n, cap: *r.pick(&[n + 1000, 2 * n, 100_000_000]), seed: r.next_u64() }) };
+        }
         let n = r.urange(2, 6);
         let v6 = r.chance(1, 5);
         let eps = conn::endpoints(r, n, v6);
@@ -138,10 +222,25 @@ impl Prop for C20 {
             Tier::Thorough => (0..16).collect(),
         };
         let boundaries = if r.chance(1, 4) { (0..r.urange(1, 3)).map(|_| r.usize_below(trace.len() + 1)).collect() } else { vec![] };
-        Scn { cap: *r.pick(&[32usize, 100, 1000]), trace, configs, boundaries, db_variant: if r.chance(1, 4) { 1 + r.below(sut::DB_VARIANTS as u64) as u32 } else { 0 } }
+        Scn { cap: *r.pick(&[32usize, 100, 1000]), trace, configs, boundaries, db_variant: if r.chance(1, 4) { 1 + r.below(sut::DB_VARIANTS as u64) as u32 } else { 0 }, flood: None }
+    }
+
+    fn systematic(tier: Tier) -> Vec<Scn> {
+        // once per check: more than 2^20 connections open at once on analyzers configured for two million (in the
+        // quick tier the build with overflow checks and debug assertions, four times slower, stops above 2^17)
+        let n = if tier == Tier::Quick && crate::NETSIM_ENGINE == "netsim" { (1 << 17) + 200 } else { (1 << 20) + 200 };
+        vec![Scn { cap: 0, trace: vec![], configs: vec![], boundaries: vec![], db_variant: 0, flood: Some(Flood { n, cap: 2_000_000, seed: 20 }) }]
+    }
+
+    fn run_wall_limit_s() -> u64 {
+        300
     }
 
     fn run(s: &Scn, st: &mut RunStats) -> Result<(), Violation> {
+        if let Some(fl) = &s.flood {
+            sut::set_db_variant(0);
+            return run_flood(fl, st);
+        }
         sut::set_db_variant(s.db_variant);
         if s.db_variant != 0 {
             st.fault("rewritten_signature_database");
@@ -294,6 +393,14 @@ impl Prop for C20 {
 
     fn shrink(s: &Scn) -> Vec<Scn> {
         let mut out = vec![];
+        if let Some(fl) = &s.flood {
+            if fl.n > 2000 {
+                let mut x = s.clone();
+                x.flood = Some(Flood { n: fl.n * 7 / 8, ..fl.clone() });
+                out.push(x);
+            }
+            return out;
+        }
         if s.configs.len() > 1 {
             for c in &s.configs {
                 let mut x = s.clone();
